@@ -35,6 +35,14 @@ CHECKS = {
     ),
 }
 
+CHECKS["C18"] = (
+    "proptest-generated extern-heavy C/C++ programs + all repository headers, four pass combinations; multiset / merge / sort invariants over the syn inventory, idempotence via hook, rustc",
+    "exploration",
+    "For every input the unprocessed, merged, sorted and merged+sorted outputs are generated in-process and compared per module: equal multisets of non-foreign items and of foreign items flattened with (block attributes, ABI, unsafety); merged blocks have pairwise distinct keys and keep the relative order of their items; sorted modules group each syn item kind contiguously in one global kind order and keep the order within a kind; re-applying the passes (hook H4) to processed output changes nothing and applying them to the unprocessed text reproduces the processed output; processed outputs compile whenever the unprocessed one does.",
+    "Trusts syn's parse of the emitted text and token-string equality of items; the kind order is inferred from the outputs (bindgen documents only 'a predefined manner').",
+    "DESIGN.md section 2 / C18",
+)
+
 NOT_YET = {}
 
 def main():
